@@ -1,5 +1,476 @@
+// Further front-ends of C13, smaller bound: the same reference interpreter, programs over the 11-statement
+// sub-alphabet frontOps (no DDL, no second session), length <= 3 (quick) / 4 (thorough), executed
+// SEQUENTIALLY on ONE in-process immudb server (auth on, pgsql on):
+//
+//	pgwire   PostgreSQL wire protocol over loopback TCP with github.com/lib/pq, one statement per simple query;
+//	session  server-side session transactions over gRPC: NewTx / TxSQLExec / TxSQLQuery / Commit / Rollback,
+//	         statements outside a transaction through SQLExec; after a failing TxSQLExec the client drops the
+//	         transaction id (the server has deleted the transaction) and continues in autocommit.
+//
+// The tables are reset between programs (the server and the store are reused), therefore generated keys are
+// not compared: table a is compared as the list of its v values. Compared: error / no error of every
+// statement, the views after every statement (session: inside via TxSQLQuery + outside; pgwire: inside on the
+// same connection + outside on a second connection), UpdatedRows of Commit / SQLExec (session), the final
+// tables after the cleanup ROLLBACK, and for the first programs that end inside a transaction a dedicated
+// connection / session is closed instead (closed session => nothing visible).
 package main
 
-func phaseFrontends() {}
+import (
+	"context"
+	dsql "database/sql"
+	"database/sql/driver"
+	"fmt"
+	"io"
+	"os"
+	"strings"
+	"time"
 
-func runOtherFront(r replay) bool { return true }
+	"github.com/codenotary/immudb/embedded/logger"
+	"github.com/codenotary/immudb/pkg/api/schema"
+	"github.com/codenotary/immudb/pkg/auth"
+	"github.com/codenotary/immudb/pkg/server"
+	_ "github.com/lib/pq"
+	"google.golang.org/grpc"
+	"google.golang.org/grpc/credentials/insecure"
+	"google.golang.org/grpc/metadata"
+	"google.golang.org/protobuf/types/known/emptypb"
+	"verif/mc/lib"
+)
+
+var frontOps = []int{opBegin, opInsA, opIns1, opIns2, opUps1, opUpd, opDel1, opSp1, opRb1, opCommit, opRollback}
+
+const closedSessionCases = 24 // programs per front whose open transaction is ended by closing the session
+
+// front = one way of talking to the server; errors are returned as err != nil only.
+type front interface {
+	name() string
+	exec(op int, inTx bool) (err error, committedUpd int) // committedUpd < 0: not reported
+	view(inTx bool) views                                 // a = v values only
+	endSession(closeIt bool) error                        // closeIt: drop the connection/session with the tx open, then reconnect
+}
+
+type testServer struct {
+	srv  *server.ImmuServer
+	dir  string
+	conn *grpc.ClientConn
+	cl   schema.ImmuServiceClient
+}
+
+func startServer() *testServer {
+	// the server prints a banner to stdout: silence it while starting
+	stdout := os.Stdout
+	if null, err := os.OpenFile(os.DevNull, os.O_WRONLY, 0); err == nil {
+		os.Stdout = null
+		defer func() { os.Stdout = stdout; null.Close() }()
+	}
+	dir := lib.Scratch("c13-srv")
+	opts := server.DefaultOptions().WithDir(dir).WithPort(0).WithAddress("127.0.0.1").WithAuth(true).WithAdminPassword("immudb").
+		WithMetricsServer(false).WithWebServer(false).WithPgsqlServer(true).WithPgsqlServerPort(0).WithSynced(false)
+	var lg logger.Logger = logger.NewMemoryLoggerWithLevel(logger.LogError)
+	if os.Getenv("C13_SRVLOG") != "" {
+		lg = logger.NewSimpleLoggerWithLevel("srv", os.Stderr, logger.LogDebug)
+	}
+	srv := server.DefaultServer().WithOptions(opts).WithLogger(lg).(*server.ImmuServer)
+	if err := srv.Initialize(); err != nil {
+		panic(err)
+	}
+	go srv.Start()
+	time.Sleep(100 * time.Millisecond) // listeners are bound by Initialize; Serve loops only need to be scheduled
+	conn, err := grpc.Dial(srv.Listener.Addr().String(), grpc.WithTransportCredentials(insecure.NewCredentials()))
+	if err != nil {
+		panic(err)
+	}
+	return &testServer{srv: srv, dir: dir, conn: conn, cl: schema.NewImmuServiceClient(conn)}
+}
+
+// stop: the process exits right after the phases; a graceful srv.Stop() only adds log noise
+func (ts *testServer) stop() {
+	ts.conn.Close()
+	os.RemoveAll(ts.dir)
+}
+
+func (ts *testServer) openSession() context.Context {
+	r, err := ts.cl.OpenSession(ctx, &schema.OpenSessionRequest{Username: []byte(auth.SysAdminUsername), Password: []byte("immudb"), DatabaseName: "defaultdb"})
+	if err != nil {
+		panic(err)
+	}
+	return metadata.AppendToOutgoingContext(ctx, "sessionid", r.SessionID)
+}
+
+// ----- gRPC session front -----
+
+type sessionFront struct {
+	ts   *testServer
+	sctx context.Context // session
+	tctx context.Context // session + open transaction
+}
+
+func (f *sessionFront) name() string { return "session" }
+
+func (f *sessionFront) exec(op int, inTx bool) (error, int) {
+	switch {
+	case op == opBegin && !inTx:
+		r, err := f.ts.cl.NewTx(f.sctx, &schema.NewTxRequest{Mode: schema.TxMode_ReadWrite})
+		if err != nil {
+			return err, -1
+		}
+		f.tctx = metadata.AppendToOutgoingContext(f.sctx, "transactionid", r.TransactionID)
+		return nil, -1
+	case op == opCommit && inTx:
+		r, err := f.ts.cl.Commit(f.tctx, &emptypb.Empty{})
+		if err != nil {
+			return err, -1
+		}
+		return nil, int(r.UpdatedRows)
+	case op == opRollback && inTx:
+		_, err := f.ts.cl.Rollback(f.tctx, &emptypb.Empty{})
+		return err, -1
+	case inTx:
+		_, err := f.ts.cl.TxSQLExec(f.tctx, &schema.SQLExecRequest{Sql: sqlText[op]})
+		return err, -1
+	}
+	r, err := f.ts.cl.SQLExec(f.sctx, &schema.SQLExecRequest{Sql: sqlText[op]})
+	if err != nil {
+		return err, -1
+	}
+	if r.OngoingTx {
+		return fmt.Errorf("SQLExec left a transaction open"), -1
+	}
+	if len(r.Txs) == 1 {
+		return nil, int(r.Txs[0].UpdatedRows)
+	}
+	return nil, -1
+}
+
+func rowsToString(rows []*schema.Row) string {
+	s := make([]string, len(rows))
+	for i, r := range rows {
+		cs := make([]string, len(r.Values))
+		for j, v := range r.Values {
+			cs[j] = fmt.Sprint(v.GetN())
+		}
+		s[i] = strings.Join(cs, ":")
+	}
+	return "[" + strings.Join(s, " ") + "]"
+}
+
+func (f *sessionFront) query(inTx bool, q string) string {
+	if !inTx {
+		r, err := f.ts.cl.UnarySQLQuery(f.sctx, &schema.SQLQueryRequest{Sql: q})
+		if err != nil {
+			return "ERR " + err.Error()
+		}
+		return rowsToString(r.Rows)
+	}
+	st, err := f.ts.cl.TxSQLQuery(f.tctx, &schema.SQLQueryRequest{Sql: q})
+	if err != nil {
+		return "ERR " + err.Error()
+	}
+	var rows []*schema.Row
+	for {
+		r, err := st.Recv()
+		if err == io.EOF {
+			return rowsToString(rows)
+		}
+		if err != nil {
+			return "ERR " + err.Error()
+		}
+		rows = append(rows, r.Rows...)
+	}
+}
+
+func (f *sessionFront) view(inTx bool) views {
+	return views{a: f.query(inTx, "SELECT v FROM a ORDER BY id"), t: f.query(inTx, "SELECT id, v FROM t ORDER BY id")}
+}
+
+func (f *sessionFront) endSession(closeIt bool) error {
+	if !closeIt {
+		_, err := f.ts.cl.Rollback(f.tctx, &emptypb.Empty{})
+		return err
+	}
+	_, err := f.ts.cl.CloseSession(f.sctx, &emptypb.Empty{})
+	f.sctx = f.ts.openSession()
+	return err
+}
+
+// ----- PostgreSQL wire front -----
+
+type pgFront struct {
+	ts       *testServer
+	db       *dsql.DB
+	in, out  *dsql.Conn
+	dsn      string
+	lastExec error
+}
+
+func newPgFront(ts *testServer) *pgFront {
+	f := &pgFront{ts: ts, dsn: fmt.Sprintf("host=127.0.0.1 port=%d sslmode=disable user=immudb dbname=defaultdb password=immudb", ts.srv.PgsqlSrv.GetPort())}
+	db, err := dsql.Open("postgres", f.dsn)
+	if err != nil {
+		panic(err)
+	}
+	f.db = db
+	if f.in, err = db.Conn(ctx); err != nil {
+		panic(err)
+	}
+	if f.out, err = db.Conn(ctx); err != nil {
+		panic(err)
+	}
+	return f
+}
+
+func (f *pgFront) name() string { return "pgwire" }
+
+func (f *pgFront) exec(op int, inTx bool) (error, int) {
+	_, err := f.in.ExecContext(ctx, sqlText[op])
+	return err, -1
+}
+
+func pgQuery(conn *dsql.Conn, q string, cols int) string {
+	rows, err := conn.QueryContext(ctx, q)
+	if err != nil {
+		return "ERR " + err.Error()
+	}
+	defer rows.Close()
+	var s []string
+	for rows.Next() {
+		vals := make([]int64, cols)
+		ptrs := make([]any, cols)
+		for i := range vals {
+			ptrs[i] = &vals[i]
+		}
+		if err := rows.Scan(ptrs...); err != nil {
+			return "ERR " + err.Error()
+		}
+		cs := make([]string, cols)
+		for i, v := range vals {
+			cs[i] = fmt.Sprint(v)
+		}
+		s = append(s, strings.Join(cs, ":"))
+	}
+	if err := rows.Err(); err != nil {
+		return "ERR " + err.Error()
+	}
+	return "[" + strings.Join(s, " ") + "]"
+}
+
+func (f *pgFront) view(inTx bool) views {
+	conn := f.out
+	if inTx {
+		conn = f.in
+	}
+	return views{a: pgQuery(conn, "SELECT v FROM a ORDER BY id", 1), t: pgQuery(conn, "SELECT id, v FROM t ORDER BY id", 2)}
+}
+
+func (f *pgFront) endSession(closeIt bool) error {
+	if !closeIt {
+		_, err := f.in.ExecContext(ctx, "ROLLBACK")
+		return err
+	}
+	// drop the TCP connection with the transaction open
+	// (ErrBadConn makes database/sql discard the dead connection instead of pooling it)
+	f.in.Raw(func(dc any) error { dc.(io.Closer).Close(); return driver.ErrBadConn })
+	f.in.Close()
+	var err error
+	if f.in, err = f.db.Conn(ctx); err != nil {
+		panic(err)
+	}
+	return nil
+}
+
+// ----- driver -----
+
+func vlist(t tbl) string { // v values in key order
+	s := t.String()
+	var out []string
+	for _, kv := range strings.Fields(strings.Trim(s, "[]")) {
+		out = append(out, kv[strings.Index(kv, ":")+1:])
+	}
+	return "[" + strings.Join(out, " ") + "]"
+}
+
+func cmpFrontViews(got views, d db, skip bool) string {
+	var w []string
+	if got.a != vlist(d.a) {
+		w = append(w, fmt.Sprintf("a(v)=%s want %s", got.a, vlist(d.a)))
+	}
+	if got.t != d.t.String() {
+		w = append(w, fmt.Sprintf("t=%s want %s", got.t, d.t))
+	}
+	return strings.Join(w, ", ")
+}
+
+// runFrontProgram executes path through f (tables already reset). closeSession: end an open transaction by
+// closing the session instead of ROLLBACK.
+func runFrontProgram(f front, ts *testServer, path []int, closeSession bool) (stop, endedInTx bool) {
+	fn := f.name()
+	cs := newCandidates()
+	inTx := false
+	for k, op := range path {
+		err, upd := f.exec(op, inTx)
+		engErr := err != nil
+		wasOpen := inTx
+		var key int64 // generated keys are not observable here: a fresh synthetic key keeps the reference going
+		for q := range cs.m {
+			m := cs.m[q]
+			for kk := range m.c.a {
+				key = max(key, kk)
+			}
+			if m.tx != nil {
+				for kk := range m.tx.w.a {
+					key = max(key, kk)
+				}
+			}
+		}
+		key++
+		var oc [nVariants]outcome
+		if !cs.settle("stmt-result-mismatch", fn, modeAll, path, k, func(q int, m *model) string {
+			o := m.step(op, k, engErr, key)
+			oc[q] = o
+			if o.err != 2 && (o.err == 1) != engErr {
+				return fmt.Sprintf("%s returned err=%v, reference expects error=%v", opName[op], err, o.err == 1)
+			}
+			return ""
+		}) {
+			return true, false
+		}
+		q0 := firstAlive(cs)
+		inTx = cs.m[q0].tx != nil
+		if !cs.settle("updated-rows-mismatch", fn, modeAll, path, k, func(q int, m *model) string {
+			if o := oc[q]; o.closed != nil && upd >= 0 && upd != o.closed.upd {
+				return fmt.Sprintf("committed tx UpdatedRows=%d, reference applied %d", upd, o.closed.upd)
+			}
+			return ""
+		}) {
+			return true, false
+		}
+		if oc[q0].undefined {
+			return true, false
+		}
+		if inTx {
+			in := f.view(true)
+			if !cs.settle("own-write-not-visible", fn, modeAll, path, k, func(q int, m *model) string {
+				if m.tx == nil {
+					return "reference has no open transaction"
+				}
+				return cmpFrontViews(in, m.tx.w, false)
+			}) {
+				return true, false
+			}
+		}
+		out := f.view(false)
+		kind := "rollback-left-effects"
+		switch {
+		case inTx:
+			kind = "tx-visible-outside"
+		case !engErr && (op == opCommit || !wasOpen):
+			kind = "commit-mismatch"
+		}
+		if !cs.settle(kind, fn, modeAll, path, k, func(q int, m *model) string { return cmpFrontViews(out, m.c, false) }) {
+			return true, false
+		}
+		note(op, wasOpen, engErr, cs.m[q0])
+		if oc[q0].leaf {
+			return true, false
+		}
+	}
+	if inTx {
+		if err := f.endSession(closeSession); err != nil && !closeSession {
+			c.Violate(lib.Violation{Sig: fmt.Sprintf("cleanup-rollback-error program=%s front=%s", prog(path), fn), Detail: err.Error(), Replay: replay{fn, modeAll, path}})
+			return true, false
+		}
+		if closeSession {
+			c.Add("closed_session_with_open_tx_"+fn, 1)
+		}
+		out := f.view(false)
+		return !cs.settle("rollback-left-effects", fn, modeAll, path, len(path)-1, func(q int, m *model) string {
+			m.tx = nil
+			if w := cmpFrontViews(out, m.c, false); w != "" {
+				return "after ending the session's open transaction (closed session=" + fmt.Sprint(closeSession) + "): " + w
+			}
+			return ""
+		}), true
+	}
+	return false, false
+}
+
+var resetStmts = []string{"DELETE FROM t", "DELETE FROM a", "INSERT INTO a(v) VALUES (0)", "INSERT INTO t(id,v) VALUES (1,1)"}
+
+func (ts *testServer) reset(sctx context.Context, first bool) {
+	stmts := resetStmts
+	if first {
+		stmts = setup
+	}
+	for _, q := range stmts {
+		if _, err := ts.cl.SQLExec(sctx, &schema.SQLExecRequest{Sql: q}); err != nil {
+			panic(fmt.Sprintf("reset %q: %v", q, err))
+		}
+	}
+}
+
+// phaseFrontends: breadth-first over the sub-alphabet, sequentially, both fronts on one server.
+func phaseFrontends(ts *testServer, maxLen int) {
+	defer ts.stop()
+	admin := ts.openSession()
+	ts.reset(admin, true)
+	// created lazily: an idle session would be expired by the server's session guard
+	fronts := []func() front{func() front { return &sessionFront{ts: ts, sctx: ts.openSession()} }, func() front { return newPgFront(ts) }}
+	c.Set("frontends_alphabet", func() string {
+		var s []string
+		for _, o := range frontOps {
+			s = append(s, opName[o])
+		}
+		return strings.Join(s, ", ")
+	}())
+	c.Set("frontends_length_target", maxLen)
+	for _, mk := range fronts {
+		f := mk()
+		frontier := [][]int{{}}
+		closed := 0
+		for d := 1; d <= maxLen; d++ {
+			var next [][]int
+			n := 0
+			for _, p := range frontier {
+				for _, op := range frontOps {
+					if c.Expired() {
+						c.CapHit(fmt.Sprintf("front %s: time budget reached at length %d after %d programs", f.name(), d, n))
+						return
+					}
+					path := append(append(make([]int, 0, d), p...), op)
+					ts.reset(admin, false)
+					closeIt := closed < closedSessionCases && d >= 2
+					var stop, inTx bool
+					if pn := lib.Catch(func() { stop, inTx = runFrontProgram(f, ts, path, closeIt) }); pn != "" {
+						c.Violate(lib.Violation{Sig: fmt.Sprintf("panic program=%s front=%s", prog(path), f.name()), Detail: pn, Replay: replay{f.name(), modeAll, path}})
+						return
+					}
+					if closeIt && inTx {
+						closed++
+					}
+					n++
+					c.Eval(f.name() + prog(path))
+					c.AddStates(1, 1)
+					if !stop {
+						next = append(next, path)
+					}
+				}
+			}
+			c.Set(fmt.Sprintf("front_%s_programs_length_%d", f.name(), d), n)
+			c.Set(fmt.Sprintf("front_%s_length_completed", f.name()), d)
+			frontier = next
+		}
+	}
+}
+
+func runOtherFront(r replay) bool {
+	ts := startServer()
+	defer ts.stop()
+	admin := ts.openSession()
+	ts.reset(admin, true)
+	var f front = &sessionFront{ts: ts, sctx: ts.openSession()}
+	if r.Front == "pgwire" {
+		f = newPgFront(ts)
+	}
+	stop, _ := runFrontProgram(f, ts, r.Path, false)
+	return stop
+}
